@@ -517,6 +517,12 @@ where
                     self.mode.set(InsertionMode::BeforeHtml);
                     return tokenizer::TokenSinkResult::Continue;
                 } else {
+                    // A DOCTYPE is "anything else" for the "in table text" insertion mode:
+                    // the pending table character tokens are flushed before it is ignored.
+                    if self.mode.get() == InsertionMode::InTableText {
+                        self.flush_pending_table_text();
+                        self.mode.set(self.orig_mode.take().unwrap());
+                    }
                     self.sink.parse_error(if self.opts.exact_errors {
                         Cow::from(format!("DOCTYPE in insertion mode {:?}", self.mode.get()))
                     } else {
